@@ -31,12 +31,14 @@ type ProverSet struct {
 	Funcs    []*ssa.Function
 	PhiLower func(*ssa.Function, *ssa.Phi) (int64, bool)
 
-	provers  map[*ssa.Function]*Prover
-	sums     map[*ssa.Function]*FnSummary
-	busy     map[*ssa.Function]bool
-	mayStore map[*ssa.Function]map[*types.Var]bool
-	fieldLo  map[*types.Var]int // 0 unknown, 1 computing, 2 proven >= 0, 3 not proven
-	byName   map[string][]*ssa.Function
+	provers    map[*ssa.Function]*Prover
+	sums       map[*ssa.Function]*FnSummary
+	busy       map[*ssa.Function]bool
+	mayStore   map[*ssa.Function]map[*types.Var]bool
+	fieldLo    map[*types.Var]int // 0 unknown, 1 computing, 2 proven >= 0, 3 not proven
+	byName     map[string][]*ssa.Function
+	owned      map[[2]*types.Var]int64
+	ownedExact map[[2]*types.Var]bool
 	// Stats
 	NSplit, NSummary, NFieldInv int
 }
@@ -69,11 +71,11 @@ const (
 )
 
 type atomRef struct {
-	kind   atomKind
-	v      ssa.Value
-	fields []*types.Var // heap fields the path loads through
-	imported bool       // imported from a callee: v is only the path's base value
-	locals   []localDep // local locations the path reads
+	kind     atomKind
+	v        ssa.Value
+	fields   []*types.Var // heap fields the path loads through
+	imported bool         // imported from a callee: v is only the path's base value
+	locals   []localDep   // local locations the path reads
 }
 
 // Fact is L >= 0, established at Origin (nil: holds wherever its values are defined).
@@ -103,7 +105,8 @@ type Prover struct {
 	seenDef map[ssa.Value]bool
 	rdCache map[string]func(ssa.Instruction) []ssa.Value
 	reach   [][]bool
-	escaped map[*ssa.Alloc]*escInfo
+	escaped map[ssa.Value]*escInfo
+	holders map[ssa.Value]map[ssa.Value]bool
 	between map[[2]ssa.Instruction]map[ssa.Instruction]bool
 }
 
@@ -183,9 +186,9 @@ type escInfo struct {
 	derived map[ssa.Value]bool
 }
 
-func (p *Prover) allocEscapes(a *ssa.Alloc) *escInfo {
+func (p *Prover) allocEscapes(a ssa.Value) *escInfo {
 	if p.escaped == nil {
-		p.escaped = map[*ssa.Alloc]*escInfo{}
+		p.escaped = map[ssa.Value]*escInfo{}
 	}
 	if v, ok := p.escaped[a]; ok {
 		return v
@@ -212,7 +215,7 @@ func (p *Prover) allocEscapes(a *ssa.Alloc) *escInfo {
 			case *ssa.UnOp:
 				if x.Op != token.MUL {
 					add(x)
-				} else if v != ssa.Value(a) {
+				} else if v != a {
 					// load through a derived address that is not the local itself:
 					// contents of a holder; pointers inside may alias the local
 					if _, isAlloc := v.(*ssa.Alloc); isAlloc {
@@ -479,8 +482,24 @@ func (p *Prover) atom(kind atomKind, v ssa.Value) string {
 		if kind != akInt {
 			p.setLo(s, 0)
 		}
+		p.applyOwnedLen(s)
 	}
 	return s
+}
+
+// applyOwnedLen: len(X.f1.f2) >= K when f1 is an owner field (see ownedLen).
+func (p *Prover) applyOwnedLen(a string) {
+	ref := p.atoms[a]
+	if ref == nil || ref.kind != akLen || len(ref.fields) < 2 {
+		return
+	}
+	n := len(ref.fields)
+	if k, ok := p.Set.ownedLen(ref.fields[n-2], ref.fields[n-1]); ok {
+		p.setLo(a, k)
+		if p.Set.ownedExact[[2]*types.Var{ref.fields[n-2], ref.fields[n-1]}] {
+			p.setHi(a, k)
+		}
+	}
 }
 
 // ---- linearisation ------------------------------------------------------------
@@ -1014,7 +1033,7 @@ func (p *Prover) usable(fs []Fact, at ssa.Instruction) []ILin {
 
 // ---- heap stability -----------------------------------------------------------
 
-var pureLibPrefixes = []string{"log/slog", "(*log/slog", "(log/slog", "time.", "(time.", "(*time.", "errors.", "fmt.", "encoding/binary", "(encoding/binary", "bytes.", "crypto/subtle.", "math.", "strings.", "strconv.", "(context.", "context.", "(*sync/atomic", "sync/atomic.", "(net/netip", "net/netip.", "(github.com/prometheus/client_golang/prometheus.Counter)", "(github.com/prometheus/client_golang/prometheus.Gauge)", "crypto/rand.", "(hash", "(crypto/cipher", "(*github.com/miscreant", "github.com/miscreant", "golang.org/x/sys/unix.Cmsg"}
+var pureLibPrefixes = []string{"log/slog", "(*log/slog", "(log/slog", "time.", "(time.", "(*time.", "errors.", "fmt.", "encoding/binary", "(encoding/binary", "bytes.", "crypto/subtle.", "math.", "strings.", "strconv.", "(context.", "context.", "(*sync/atomic", "sync/atomic.", "(net/netip", "net/netip.", "(github.com/prometheus/client_golang/prometheus.Counter)", "(github.com/prometheus/client_golang/prometheus.Gauge)", "crypto/rand.", "(hash", "(crypto/cipher", "(*github.com/miscreant", "github.com/miscreant", "golang.org/x/sys/unix.Cmsg", "github.com/scionproto/scion/pkg/spao.ComputeAuthCMAC"}
 
 func pureLibCall(name string) bool {
 	for _, pre := range pureLibPrefixes {
@@ -1042,7 +1061,7 @@ func (ps *ProverSet) mayStoreOf(fn *ssa.Function) map[*types.Var]bool {
 				switch x := in.(type) {
 				case *ssa.Store:
 					if fa, ok := x.Addr.(*ssa.FieldAddr); ok {
-						if fv := fieldVar(fa.X.Type(), fa.Field); fv != nil {
+						if fv := fieldVar(fa.X.Type(), fa.Field); fv != nil && !ps.selfRestore(f, x) {
 							d[fv] = true
 						}
 					}
@@ -1098,14 +1117,88 @@ func (ps *ProverSet) mayStoreOf(fn *ssa.Function) map[*types.Var]bool {
 	return ps.mayStore[fn]
 }
 
-// kills: instruction in may change the heap field fv.
-func (p *Prover) kills(in ssa.Instruction, fv *types.Var) bool {
+// holdersOf: the values through which code can reach the object the path is
+// rooted at: everything derived from the root pointer, and everything derived
+// from the operands of the call that produced it.
+func (p *Prover) holdersOf(root ssa.Value) map[ssa.Value]bool {
+	if p.holders == nil {
+		p.holders = map[ssa.Value]map[ssa.Value]bool{}
+	}
+	if h, ok := p.holders[root]; ok {
+		return h
+	}
+	h := map[ssa.Value]bool{}
+	p.holders[root] = h
+	addAll := func(v ssa.Value) {
+		for k := range p.allocEscapes(v).derived {
+			h[k] = true
+		}
+	}
+	addAll(root)
+	var call *ssa.Call
+	switch x := root.(type) {
+	case *ssa.Call:
+		call = x
+	case *ssa.Extract:
+		call, _ = x.Tuple.(*ssa.Call)
+	}
+	if call != nil {
+		ops := append([]ssa.Value{}, call.Call.Args...)
+		if call.Call.IsInvoke() {
+			ops = append(ops, call.Call.Value)
+		}
+		for _, op := range ops {
+			if hasPointers(op.Type()) {
+				addAll(rootValue(op))
+			}
+		}
+	}
+	return h
+}
+
+// selfRestore: st writes back to x.f the value loaded from the same x.f, and is
+// the only store to that field in fn (the field keeps its value).
+func (ps *ProverSet) selfRestore(fn *ssa.Function, st *ssa.Store) bool {
+	fa, ok := st.Addr.(*ssa.FieldAddr)
+	if !ok {
+		return false
+	}
+	ld, ok := st.Val.(*ssa.UnOp)
+	if !ok || ld.Op != token.MUL {
+		return false
+	}
+	fa2, ok := ld.X.(*ssa.FieldAddr)
+	if !ok || fa2.Field != fa.Field || fieldVar(fa2.X.Type(), fa2.Field) != fieldVar(fa.X.Type(), fa.Field) {
+		return false
+	}
+	pf := ps.For(fn)
+	var f1, f2 []*types.Var
+	var l1, l2 []localDep
+	if pf.path(fa.X, &f1, &l1, 0) != pf.path(fa2.X, &f2, &l2, 0) {
+		return false
+	}
+	fv := fieldVar(fa.X.Type(), fa.Field)
+	n := 0
+	Instrs(fn, func(in ssa.Instruction) {
+		if s2, ok := in.(*ssa.Store); ok {
+			if fa3, ok := s2.Addr.(*ssa.FieldAddr); ok && fieldVar(fa3.X.Type(), fa3.Field) == fv {
+				n++
+			}
+		}
+	})
+	return n == 1
+}
+
+// kills: instruction in may change the heap field fv of an object reachable
+// through holders. Repo-declared fields are written only by repo code (looked
+// up in the callees' may-store sets); library-declared fields may also be
+// written by library code, but only code that is handed a holder.
+func (p *Prover) kills(in ssa.Instruction, fv *types.Var, holders map[ssa.Value]bool) bool {
 	switch x := in.(type) {
 	case *ssa.Store:
 		if fa, ok := x.Addr.(*ssa.FieldAddr); ok {
-			return fieldVar(fa.X.Type(), fa.Field) == fv
+			return fieldVar(fa.X.Type(), fa.Field) == fv && !p.Set.selfRestore(p.Fn, x)
 		}
-		// store of a whole struct through a pointer may overwrite the field
 		if pt, ok := x.Addr.Type().Underlying().(*types.Pointer); ok {
 			if st, ok := pt.Elem().Underlying().(*types.Struct); ok {
 				for i := 0; i < st.NumFields(); i++ {
@@ -1121,25 +1214,31 @@ func (p *Prover) kills(in ssa.Instruction, fv *types.Var) bool {
 		if _, isB := c.Value.(*ssa.Builtin); isB {
 			return false
 		}
-		lib := func() bool { return !isRepoField(fv) && !pureLibCall(CalleeName(c)) }
+		handed := holders[c.Value]
+		for _, a := range c.Args {
+			if holders[a] {
+				handed = true
+			}
+		}
+		lib := func() bool { return handed && !isRepoField(fv) && !pureLibCall(CalleeName(c)) }
 		if sc := c.StaticCallee(); sc != nil {
 			if sc.Blocks == nil {
 				return lib()
 			}
 			ms := p.Set.mayStoreOf(sc)
-			return ms[fv] || (ms[nil] && !isRepoField(fv))
+			return ms[fv] || (handed && ms[nil] && !isRepoField(fv))
 		}
 		if c.IsInvoke() {
 			for _, m := range p.Set.byName[c.Method.Name()] {
 				ms := p.Set.mayStoreOf(m)
-				if ms[fv] || (ms[nil] && !isRepoField(fv)) {
+				if ms[fv] || (handed && ms[nil] && !isRepoField(fv)) {
 					return true
 				}
 			}
 			return lib()
 		}
 		// dynamic call of a function value
-		return true
+		return handed || isRepoField(fv)
 	}
 	return false
 }
@@ -1248,11 +1347,15 @@ func (p *Prover) stable(f Fact, at ssa.Instruction) bool {
 		if bs == nil {
 			bs = p.betweenSet(f.Origin, at)
 		}
+		var holders map[ssa.Value]bool
+		if len(ref.fields) > 0 {
+			holders = p.holdersOf(rootValue(ref.v))
+		}
 		for in := range bs {
 			switch x := in.(type) {
 			case *ssa.Store:
 				for _, fv := range ref.fields {
-					if p.kills(in, fv) {
+					if p.kills(in, fv, holders) {
 						return false
 					}
 				}
@@ -1264,7 +1367,10 @@ func (p *Prover) stable(f Fact, at ssa.Instruction) bool {
 				}
 			case ssa.CallInstruction:
 				for _, fv := range ref.fields {
-					if p.kills(in, fv) {
+					if p.kills(in, fv, holders) {
+						if DebugStable {
+							fmt.Printf("UNSTABLE %s: %s killed by %v (heap field %s)\n", a, f.L.String(), in, fv.Name())
+						}
 						return false
 					}
 				}
@@ -1785,6 +1891,7 @@ func (p *Prover) importPathAtom(a string, callee *ssa.Function, args []ssa.Value
 		if p.atoms[na] == nil {
 			p.atoms[na] = &atomRef{kind: cref.kind, v: args[i], fields: append(fields, cref.fields...), locals: locals, imported: true}
 		}
+		p.applyOwnedLen(na)
 		cp := p.Set.For(callee)
 		if lo, ok := cp.lo[a]; ok {
 			p.setLo(na, lo)
@@ -1857,6 +1964,27 @@ func (p *Prover) HasFields(a string) bool {
 // StableBetween: no store to the heap fields of the atoms of l can run between origin and at.
 func (p *Prover) StableBetween(l ILin, origin, at ssa.Instruction) bool {
 	return p.stable(Fact{L: l, Origin: origin}, at)
+}
+
+// OppositeEdgeFacts: the facts that hold when the branch at the end of b does
+// NOT take successor si (nil when the condition is not a single integer comparison).
+func (p *Prover) OppositeEdgeFacts(b *ssa.BasicBlock, si int) []ILin {
+	iff := lastIfOf(b)
+	if iff == nil || len(b.Succs) != 2 {
+		return nil
+	}
+	cond, pos := StripNot(iff.Cond)
+	neg := !pos
+	bo, ok := cond.(*ssa.BinOp)
+	if !ok {
+		return nil
+	}
+	// taking succ si means cond == (si == 0) (xor neg); the opposite edge has the other value
+	holds := !(si == 0)
+	if neg {
+		holds = !holds
+	}
+	return p.cmpFacts(bo, holds)
 }
 
 // EdgeProves: the facts of taking edge (b, si) alone establish g >= 0.
@@ -2000,6 +2128,158 @@ func (ps *ProverSet) fieldNonNeg(fv *types.Var) bool {
 		ps.fieldLo[fv] = 3
 	}
 	return ok
+}
+
+// ownedLen: f1 is an unexported pointer field of a repo struct that only ever
+// receives freshly allocated objects whose slice field f2 is initialised right
+// away to make([]T, K); every other store to f2 in the repo either targets an
+// object allocated in the storing function that is not handed to an f1 field,
+// or re-stores the object's own slice. Library code that is handed the object
+// is trusted not to shorten f2. Then len(x.f1.f2) >= K wherever x.f1 != nil.
+func (ps *ProverSet) ownedLen(f1, f2 *types.Var) (int64, bool) {
+	key := [2]*types.Var{f1, f2}
+	if ps.owned == nil {
+		ps.owned = map[[2]*types.Var]int64{}
+	}
+	if k, ok := ps.owned[key]; ok {
+		return k, k >= 0
+	}
+	ps.owned[key] = -1
+	if f1.Exported() || !isRepoField(f1) {
+		return 0, false
+	}
+	if _, isPtr := f1.Type().Underlying().(*types.Pointer); !isPtr {
+		return 0, false
+	}
+	best := int64(-1)
+	most := int64(-1)
+	ok := true
+	for _, fn := range ps.Funcs {
+		if !ok {
+			break
+		}
+		pf := ps.For(fn)
+		for _, b := range fn.Blocks {
+			for i, in := range b.Instrs {
+				st, isSt := in.(*ssa.Store)
+				if !isSt {
+					continue
+				}
+				fa, isFA := st.Addr.(*ssa.FieldAddr)
+				if !isFA {
+					continue
+				}
+				switch fieldVar(fa.X.Type(), fa.Field) {
+				case f1:
+					if IsNilConst(st.Val) {
+						continue
+					}
+					al, isAlloc := st.Val.(*ssa.Alloc)
+					if !isAlloc {
+						ok = false
+						continue
+					}
+					var fs []*types.Var
+					var ls []localDep
+					ownerPath := pf.path(fa, &fs, &ls, 0)
+					found := false
+					for _, in2 := range b.Instrs[i+1:] {
+						if c, isCall := in2.(ssa.CallInstruction); isCall {
+							if _, isB := c.Common().Value.(*ssa.Builtin); !isB {
+								break
+							}
+						}
+						st2, isSt2 := in2.(*ssa.Store)
+						if !isSt2 {
+							continue
+						}
+						fa2, isFA2 := st2.Addr.(*ssa.FieldAddr)
+						if !isFA2 || fieldVar(fa2.X.Type(), fa2.Field) != f2 {
+							continue
+						}
+						var fs2 []*types.Var
+						var ls2 []localDep
+						if fa2.X != ssa.Value(al) && pf.path(fa2.X, &fs2, &ls2, 0) != ownerPath {
+							continue
+						}
+						kl, lok := pf.Len(st2.Val, 0)
+						if !lok || len(kl.Coef) != 0 {
+							break
+						}
+						k := kl.C
+						if best < 0 || k < best {
+							best = k
+						}
+						if k > most {
+							most = k
+						}
+						found = true
+						break
+					}
+					if !found {
+						ok = false
+					}
+				case f2:
+					root := rootValue(fa.X)
+					if al, isAlloc := root.(*ssa.Alloc); isAlloc {
+						if pt, isPtr := al.Type().Underlying().(*types.Pointer); isPtr {
+							if st, isStruct := pt.Elem().Underlying().(*types.Struct); isStruct {
+								owns := false
+								for j := 0; j < st.NumFields(); j++ {
+									if st.Field(j) == f2 {
+										owns = true
+									}
+								}
+								handed := false
+								for _, r := range Referrers(al) {
+									if s2, isS := r.(*ssa.Store); isS && s2.Val == ssa.Value(al) {
+										if fa3, isF := s2.Addr.(*ssa.FieldAddr); isF && fieldVar(fa3.X.Type(), fa3.Field) == f1 {
+											handed = true
+										}
+									}
+								}
+								if owns && !handed {
+									continue // an object of this function's own, never given to an f1 field
+								}
+								if owns && handed {
+									continue // initialisation, checked at the f1 store
+								}
+							}
+						}
+					}
+					// initialisation through the owner path right after the f1 store is checked there
+					if kl, lok := pf.Len(st.Val, 0); lok && len(kl.Coef) == 0 {
+						var fs []*types.Var
+						var ls []localDep
+						bp := pf.path(fa.X, &fs, &ls, 0)
+						if len(fs) > 0 && fs[len(fs)-1] == f1 {
+							_ = bp
+							continue
+						}
+					}
+					// re-store of the object's own slice
+					l, lok := pf.Len(st.Val, 0)
+					var fs []*types.Var
+					var ls []localDep
+					self := "len(" + pf.path(fa.X, &fs, &ls, 0) + "." + f2.Name() + ")"
+					if lok && l.C == 0 && len(l.Coef) == 1 && l.Coef[self] == 1 {
+						continue
+					}
+					ok = false
+				}
+			}
+		}
+	}
+	if !ok || best < 0 {
+		return 0, false
+	}
+	ps.owned[key] = best
+	if ps.ownedExact == nil {
+		ps.ownedExact = map[[2]*types.Var]bool{}
+	}
+	ps.ownedExact[key] = best == most
+	ps.NFieldInv++
+	return best, true
 }
 
 // Describe renders the prover's view of an atom (for diagnostics).
